@@ -16,6 +16,7 @@ import (
 	"github.com/scrapli/scrapligo/driver/netconf"
 	"github.com/scrapli/scrapligo/driver/options"
 	"github.com/scrapli/scrapligo/logging"
+	"github.com/scrapli/scrapligo/response"
 	"github.com/scrapli/scrapligo/transport"
 	"github.com/scrapli/scrapligo/util"
 
@@ -332,7 +333,7 @@ func runE2ECLI(d Desc) mon.Result {
 	smu.Unlock()
 	return compareOutcome(d, t0, fmt.Sprintf("%d commands", len(s.Cmds)), ref.Err, got.Err,
 		[][2]interface{}{{ref.Results, got.Results}, {ref.Prompt, got.Prompt}, {ref.Lines, got.Lines}},
-		[]string{"results", "prompt", "lines received by the device"}, outBytes(s))
+		[]string{"results", "prompt", "lines received by the device"}, outBytes(s), nil)
 }
 
 func outBytes(s cliScript) int {
@@ -343,7 +344,7 @@ func outBytes(s cliScript) int {
 	return n
 }
 
-func compareOutcome(d Desc, t0 time.Time, what, refErr, gotErr string, pairs [][2]interface{}, names []string, volume int) mon.Result {
+func compareOutcome(d Desc, t0 time.Time, what, refErr, gotErr string, pairs [][2]interface{}, names []string, volume int, explain func() (string, string)) mon.Result {
 	key := "c16/e2e/" + strings.TrimPrefix(d.Kind, "e2e-") + "/" + d.T
 	if gotErr != "" {
 		if (strings.Contains(gotErr, "errTimeoutError") || strings.Contains(gotErr, "timeout")) && mon.LoadedSince(t0) {
@@ -373,9 +374,18 @@ func compareOutcome(d Desc, t0 time.Time, what, refErr, gotErr string, pairs [][
 				}
 				return s[lo:hi]
 			}
-			return mon.Result{Verdict: mon.Violated, Key: key + ":differs", NonTrivial: true,
-				Detail: fmt.Sprintf("%s %s rs=%d seed=%d: %s differ between the ideal pipe and the real transport at rendered offset %d:\n ideal: …%s…\n real:  …%s…",
-					d.T, d.Version, d.ReadSize, d.Seed, names[i], j, clip(a), clip(b))}
+			suffix, more := ":differs", ""
+			if explain != nil {
+				if sfx, m := explain(); sfx != "" || m != "" {
+					if sfx != "" {
+						suffix = sfx
+					}
+					more = "\n" + m
+				}
+			}
+			return mon.Result{Verdict: mon.Violated, Key: key + suffix, NonTrivial: true,
+				Detail: more[len(more):] + fmt.Sprintf("%s %s rs=%d seed=%d: %s differ between the ideal pipe and the real transport at rendered offset %d:\n ideal: …%s…\n real:  …%s…",
+					d.T, d.Version, d.ReadSize, d.Seed, names[i], j, clip(a), clip(b)) + more}
 		}
 	}
 	obs := map[string]int64{"e2e_sessions": 1, "e2e_device_output_bytes": int64(volume)}
@@ -502,6 +512,7 @@ type ncOutcome struct {
 	Caps    []string
 	Msgs    []string // payloads the server decoded
 	Proto   string
+	Raw     []string // RawResult per rpc (diagnosis only, not compared)
 }
 
 func closeNC(d *netconf.Driver) {
@@ -521,59 +532,31 @@ func driveNC(s ncScript, d *netconf.Driver, o *ncOutcome) {
 	defer closeNC(d)
 	o.Version, o.Session, o.Caps = d.SelectedVersion, d.SessionID(), d.ServerCapabilities()
 	for i, op := range s.Ops {
+		var r *response.NetconfResponse
 		var err error
-		var res string
-		var failed error
 		switch op {
 		case "get-config":
-			r, e := d.GetConfig("running")
-			err = e
-			if e == nil {
-				res, failed = r.Result, r.Failed
-			}
+			r, err = d.GetConfig("running")
 		case "get":
-			r, e := d.Get(fmt.Sprintf("<interfaces><interface><name>eth%d</name></interface></interfaces>", i))
-			err = e
-			if e == nil {
-				res, failed = r.Result, r.Failed
-			}
+			r, err = d.Get(fmt.Sprintf("<interfaces><interface><name>eth%d</name></interface></interfaces>", i))
 		case "edit-config":
-			r, e := d.EditConfig("candidate", fmt.Sprintf("<config><system><hostname>r%d</hostname></system></config>", i))
-			err = e
-			if e == nil {
-				res, failed = r.Result, r.Failed
-			}
+			r, err = d.EditConfig("candidate", fmt.Sprintf("<config><system><hostname>r%d</hostname></system></config>", i))
 		case "lock":
-			r, e := d.Lock("candidate")
-			err = e
-			if e == nil {
-				res, failed = r.Result, r.Failed
-			}
+			r, err = d.Lock("candidate")
 		case "unlock":
-			r, e := d.Unlock("candidate")
-			err = e
-			if e == nil {
-				res, failed = r.Result, r.Failed
-			}
+			r, err = d.Unlock("candidate")
 		case "commit":
-			r, e := d.Commit()
-			err = e
-			if e == nil {
-				res, failed = r.Result, r.Failed
-			}
+			r, err = d.Commit()
 		default:
-			r, e := d.Validate("candidate")
-			err = e
-			if e == nil {
-				res, failed = r.Result, r.Failed
-			}
+			r, err = d.Validate("candidate")
 		}
 		if err != nil {
 			o.Err = fmt.Sprintf("rpc %d (%s): %v", i, op, err)
 			return
 		}
-		o.Results = append(o.Results, res)
-		o.Failed = append(o.Failed, fmt.Sprint(failed))
+		o.Results = append(o.Results, r.Result)
+		o.Failed = append(o.Failed, fmt.Sprint(r.Failed))
+		o.Raw = append(o.Raw, string(r.RawResult))
 	}
 }
 
@@ -661,5 +644,47 @@ func runE2ENC(d Desc) mon.Result {
 	}
 	return compareOutcome(d, t0, fmt.Sprintf("netconf %s, %d rpcs %v", d.Version, len(s.Ops), s.Ops), ref.Err, got.Err,
 		[][2]interface{}{{ref.Results, got.Results}, {ref.Failed, got.Failed}, {ref.Version, got.Version}, {ref.Session, got.Session}, {ref.Caps, got.Caps}, {ref.Msgs, got.Msgs}},
-		[]string{"rpc results", "rpc failure flags", "selected version", "session id", "server capabilities", "messages decoded by the server"}, vol)
+		[]string{"rpc results", "rpc failure flags", "selected version", "session id", "server capabilities", "messages decoded by the server"}, vol,
+		func() (string, string) { return explainNC(d, &ref, &got) })
+}
+
+// explainNC diagnoses a NETCONF difference: which rpc, its failure text, and where the raw reply
+// (CR removed by the channel) departs from the framed reply the server sent. A stray newline inside
+// an otherwise intact 1.1 reply over the system transport is the tty's echo of the driver's trailing
+// return landing inside the reply (the request is written as payload, return, return).
+func explainNC(d Desc, ref, got *ncOutcome) (string, string) {
+	for i := range ref.Results {
+		if i >= len(got.Results) || ref.Results[i] == got.Results[i] {
+			continue
+		}
+		a, b := ref.Raw[i], got.Raw[i]
+		// align: the real raw result may start with leftovers of the echo; compare from the first "#"
+		ta, tb := strings.TrimSpace(a), strings.TrimSpace(b)
+		j := 0
+		for j < len(ta) && j < len(tb) && ta[j] == tb[j] {
+			j++
+		}
+		lo, hi := j-40, j+40
+		if lo < 0 {
+			lo = 0
+		}
+		cl := func(s string) string {
+			h := hi
+			if h > len(s) {
+				h = len(s)
+			}
+			if lo > len(s) {
+				return ""
+			}
+			return s[lo:h]
+		}
+		msg := fmt.Sprintf(" rpc %d: failure text over the real transport: %.300s\n raw reply departs from the ideal one at offset %d of %d/%d:\n ideal raw: …%q…\n real raw:  …%q…",
+			i, got.Failed[i], j, len(ta), len(tb), cl(ta), cl(tb))
+		sfx := ""
+		if d.T == "system-ssh" && j < len(tb) && tb[j] == '\n' && len(tb) > len(ta) && strings.HasPrefix(ta[j:], tb[j+1:j+1+min(20, len(tb)-j-1)]) {
+			sfx = ":tty-echo-of-trailing-return-inside-reply"
+		}
+		return sfx, msg
+	}
+	return "", ""
 }
